@@ -138,3 +138,10 @@ package ipa
 //@ ensures fresh(result) && len(result) == 256
 //@ ensures fr_to_int(evalPoint) > 255 ==> (forall k int :: 0 <= k && k < 256 ==> result[k] == fr_inv((evalPoint - fr_of_int(k)) * Aprime(k)) * Az(evalPoint))
 //@ ensures fr_to_int(evalPoint) <= 255 ==> (forall k int :: 0 <= k && k < 256 ==> result[k] == (k == fr_to_int(evalPoint) ? fr_one : fr_zero))
+
+// the package initialiser establishes the package invariant used above
+//@ func init#1
+//@ props C04
+//@ prelude field
+//@ ensures maxEvalPointInsideDomain == fr_of_int(255)
+//@ modifies maxEvalPointInsideDomain
